@@ -8,6 +8,7 @@
 -/
 import OPModel.Proofs.HXReal
 import OPModel.Proofs.LogMean
+import OPModel.Proofs.MultiPass
 import OPModel.Gen.Constants
 
 namespace OP.C20
@@ -21,6 +22,15 @@ theorem dispatch_total_and_consistent :
   constructor
   · decide +kernel
   · decide +kernel
+
+/-- **Multi-pass conversion and its inverse.**  `MultiPassNTU(MultiPassEff(e, c, P), c, P) = e` for every pass
+    count `P ≥ 1`: for balanced streams (`c = 1`, any `e ≥ 0`) and for unbalanced streams wherever the
+    single-pass ratio `(1 − e c)/(1 − e)` is positive and the multi-pass expression is defined.  (Seeded change
+    C20-multipass-ntu-balanced-sign flips a sign in the balanced branch of the inverse.) -/
+theorem multipass_roundtrip (e c : ℝ) (P : ℕ) (hP : 1 ≤ P) :
+    (0 ≤ e → mpNTU (mpEff e 1 P) 1 P = e) ∧
+    (c ≠ 1 → e < 1 → e * c < 1 → ((1 - e * c) / (1 - e)) ^ P ≠ c → mpNTU (mpEff e c P) c P = e) :=
+  ⟨fun he => mp_roundtrip_balanced e P he hP, fun hc he1 hec hr => mp_roundtrip e c P hc he1 hec hP hr⟩
 
 /-- **NTU → ε → NTU** for every arrangement with a closed-form inverse, on its whole domain. -/
 theorem roundtrip_closed_forms (N c : ℝ) (hN : 0 < N) :
